@@ -214,6 +214,22 @@ func runC20(c *histCtx, it *Item) {
 			verif.Assert(len(st.Visited) <= c.bt.NumStates()*(len(h)+1), "C20 backtracker visited table larger than states x (len+1)")
 		}
 		verif.Reach("match")
+	case "bt-visited-at":
+		// search resumed at an offset: the table is sized by the searched span and never exceeds the cap
+		h := haystack(it, &c.set)
+		at := it.N
+		small := nfa.NewBoundedBacktrackerSmall(c.n)
+		if at > len(h) || !small.CanHandle(len(h)-at) {
+			verif.Reach("declined")
+			return
+		}
+		st := nfa.NewBacktrackerState()
+		_, _, _ = small.SearchAtWithState(h, at, st)
+		verif.SnapInt("visited", len(st.Visited))
+		verif.SnapInt("cap", small.MaxVisitedSize())
+		verif.Reach("match")
+		verif.Assert(len(st.Visited) <= small.MaxVisitedSize(), "C20 backtracker visited table exceeds its cap after a search resumed at an offset")
+		verif.Assert(cap(st.Visited) <= small.MaxVisitedSize(), "C20 backtracker visited table capacity exceeds its cap")
 	case "repeat-growth":
 		// the same two searches repeated do not change the pooled state's table sizes
 		aged := c.fresh()
@@ -266,6 +282,14 @@ func init() {
 // over all inputs of length L and 2L.
 func runC05(c *histCtx, it *Item) {
 	h := haystack(it, &c.set)
+	if it.N > 0 {
+		// long run: N copies of one byte (concrete) followed by the symbolic tail
+		run := make([]byte, it.N, it.N+len(h))
+		for i := range run {
+			run[i] = it.Extra[0]
+		}
+		h = append(run, h...)
+	}
 	w0 := verif.Work()
 	switch it.API {
 	case "Match":
